@@ -893,7 +893,7 @@ class SweepMachine:
                   f'sites right of {hi_site} are right-isometric at the local step (right-isometric above {st.b})')
         coef = None
         if f == '_local_hamiltonian_step':
-            coef = dt_coeff(a[4], env=self.dtenv)
+            coef = dt_coeff(self.fold_static(a[4]), env=self.dtenv)
             if coef is None:
                 raise AnalysisError(f'{self.fi.qual}: time-step argument `{norm(a[4])}` is not a multiple of dt')
         kind = 'H1' if lo_site == hi_site else 'H2'
@@ -905,6 +905,13 @@ class SweepMachine:
         if tgt is None:
             raise AnalysisError(f'{self.fi.qual}: result of `{norm(value)[:50]}` is dropped')
         k = x.site_ref(tgt)
+        if k is None and isinstance(tgt, ast.Subscript) and x.site_ref(tgt.value) is not None:
+            # psi.A[k][...] = step(...): written into the existing array, which keeps its dtype (a complex step of a
+            # real-stored tensor loses its imaginary part) and its shape
+            k = x.site_ref(tgt.value)
+            self.rep.add('slot', s, False,
+                         f'`{norm(s)[:70]}`: the result of the local step replaces the list entry (written into the existing array it '
+                         f'is cast to the old dtype - the imaginary part of a complex update of a real-stored tensor is discarded)')
         if k is not None:
             self.rep.add('slot', s, k == lo_site and lo_site == hi_site,
                          f'result of the local step on site {lo_site} is stored back into psi.A[{k}]')
@@ -946,7 +953,7 @@ class SweepMachine:
         self.need('stale', s, lambda: le(st.lo, br[1], c), f'BR[{br[1]}] is up to date when used (valid from {st.lo})')
         self.need('canonical', s, lambda: le(k, st.a, c), f'sites left of bond {k} are left-isometric at the bond step')
         self.need('canonical', s, lambda: le(st.b, k - ONE, c), f'sites right of bond {k} are right-isometric at the bond step')
-        coef = dt_coeff(a[3], env=self.dtenv)
+        coef = dt_coeff(self.fold_static(a[3]), env=self.dtenv)
         if coef is None:
             raise AnalysisError(f'{self.fi.qual}: time-step argument `{norm(a[3])}` is not a multiple of dt')
         self.event(Event('K', s, lo=k, hi=k, coef=coef))
@@ -1045,9 +1052,18 @@ class SweepMachine:
             raise AnalysisError(f'{self.fi.qual}: `{norm(s)[:80]}`: local orthonormalisation not of the recognised form')
         obj = self.psi
         k = x.site_ref(a[0])
+        if k is None and isinstance(a[0], ast.Name) and x.temps.get(a[0].id, ('',))[0] == 'local_result':
+            # the optimised / evolved tensor of the site, orthonormalised before it is stored back
+            k = x.temps[a[0].id][1]
+            st = self.write_site(s, k, 'centre', st)
         if k is None:
             raise AnalysisError(f'{self.fi.qual}: first argument of {f} is not a site tensor')
-        dummy = norm(a[1]).startswith('np.array([[[1]]]') or norm(a[1]).startswith('np.array([[[[1]]]]')
+        a1 = a[1]
+        if isinstance(a1, ast.Name):
+            # the dummy neighbour held in a local (bound once to a constant array)
+            from .defuse import local_defs
+            a1 = local_defs(self.fi.node).get(a1.id, a1)
+        dummy = norm(a1).startswith('np.array([[[1]]]') or norm(a1).startswith('np.array([[[[1]]]]')
         nb = x.site_ref(a[1])
         want_nb = k + ONE if left else k - ONE
         if not dummy:
